@@ -35,6 +35,12 @@ claimed.update({
  "C16": ("monitors on controllers, clones and filtered clones with handlers that sleep on the simulated clock or yield; Close of monitor/publisher/root incl. before readiness; OnInitialize first and at most once, no callback before the publisher is ready, never two callbacks at once, none after Done(), init list + callbacks replay to the publisher cache",
          "replay tolerates the documented overlap between the initial List() and already queued events; typed monitors are covered by C20"),
 })
+claimed.update({
+ "C09": ("two or three simulated API servers (source type, destination type, services for the double join), real typed controllers, every one of the eight generated joins, IngressPods and the ...With variants in turn (run index mod 9); histories where sources appear, change selector, move namespace and disappear while destinations change labels; join cache == {destination objects selected by the library's own selection function over the server's current sources} at quiescence, join ready only after both bases, mirror of the join's events == its cache, Close() of the result leaves the goroutine population of the long-lived bases exactly as before (1..20 create/close cycles), bases keep working",
+         "the pure selection filters (PodsFilter/ServicesFilter) are trusted (C19); typed controllers use the library's fixed 1 min refresh period"),
+ "C20": ("each of the 12 typed packages in turn (run index mod 12): one simulated API server of that kind, a typed controller and an untyped core controller side by side, the same script (tree of Subscribe*/Clone*/monitors, refilters, closes, writes) applied to both at quiescent points, foreign-typed objects in lists and watch frames in half of the runs; typed caches, event sequences (up to intra-batch order), monitor callbacks, readiness and lifecycle must equal the untyped ones restricted to the package's type; foreign objects never visible, never a nil callback",
+         "decided in part: textual/AST equality of generated files with their templates and the REST paths built by client.ForResource are static / pure request-construction properties outside deterministic simulation and are NOT claimed; joins are compared against each other by C09"),
+})
 pending = {}
 na = {
  "C17": "pure function of its inputs (Equals/Accept over filter terms): no schedule, clock, fault or interleaving for a simulator to control; generating terms would be property-based testing, not simulation",
